@@ -2,6 +2,8 @@
   Property C03 — surplus transfers and STV rounds conserve votes.
 -/
 import VK.Model.Transfers
+import VK.Lemmas.STVWeight
+import VK.Lemmas.STVRun
 import VK.Lemmas.Condense
 import Mathlib.Tactic.FieldSimp
 import Mathlib.Algebra.Order.Field.Basic
@@ -131,5 +133,140 @@ theorem C03_frac_weight (w : Cand) (fpv : Rat) (bs : List Ballot) (q : Int) (out
 /-- non-vacuity: A>B weight 3 and A>B weight 1 with tally 4, quota 2: B receives 4·(2/4) = 2 -/
 example : fractionalTransfer 0 4 [{ ranking := [[0], [1]], weight := 3 }, { ranking := [[0], [1]], weight := 1 }] 2
     = .ok [{ ranking := [[1]], weight := 2 }] := by decide +kernel
+
+/-! ### round accounting of the STV count (pointwise state = the profile the code holds) -/
+
+/-- the tallies recorded for a round add up to the active weight: every ballot that still ranks a
+hopeful candidate is counted for exactly one of them -/
+theorem tallies_sum_active (bs : List PBallot) (hop : List Cand) (hn : hop.Nodup) :
+    rsum ((tallies bs hop).map (·.2)) = active bs hop := by
+  unfold tallies active
+  simp only [List.map_map, Function.comp_def]
+  induction bs with
+  | nil => simp [tally, wsum_nil, rsum_replicate]
+  | cons b rest ih =>
+    have hsplit : (fun c => tally (b :: rest) hop c) =
+        fun c => (if topOf hop b.1 = some c then b.2 else 0) + tally rest hop c := by
+      funext c
+      rw [tally_eq_wsum, wsum_cons, ← tally_eq_wsum]
+      by_cases h : topOf hop b.1 = some c <;> simp [h]
+    rw [hsplit, rsum_map_add, ih, wsum_cons]
+    congr 1
+    -- exactly one hopeful candidate is the ballot's top, if it has one
+    cases htop : topOf hop b.1 with
+    | none => simp [isActive, htop, rsum_replicate]
+    | some c0 =>
+      have hc0 : c0 ∈ hop := by
+        unfold topOf at htop
+        have := List.find?_some htop
+        simpa using this
+      simp only [isActive, htop, Option.isSome_some, if_true, Option.some.injEq]
+      clear ih hsplit htop
+      induction hop with
+      | nil => simp at hc0
+      | cons x xs ihx =>
+        rw [List.nodup_cons] at hn
+        simp only [List.map_cons, rsum_cons]
+        by_cases hx : c0 = x
+        · subst hx
+          have : ∀ c ∈ xs, (if c0 = c then b.2 else 0) = 0 := by
+            intro c hc
+            have : c0 ≠ c := fun e => hn.1 (e ▸ hc)
+            simp [this]
+          rw [List.map_congr_left this]; simp [rsum_replicate]
+        · have hc0' : c0 ∈ xs := by
+            rcases List.mem_cons.1 hc0 with h | h
+            · exact absurd h hx
+            · exact h
+          rw [ihx hn.2 hc0']; simp [hx]
+
+/-- **Round accounting (fractional rule).** In every step of the count either the remaining
+candidates fill the remaining seats (the profile becomes empty), or the total weight of the next
+profile plus the weight of the ballots left with no surviving choice equals the previous total
+minus one threshold for each candidate elected in the round — nothing else is lost or created.
+An elimination round (no one elected) consumes nothing. -/
+theorem C03_step_accounting (cfg : STVCfg) (init : Profile) (q : Int) (ω : STVOracle) (rnd : Nat)
+    (S S' : CState) (prev r : RoundState) (hf : cfg.transfer = .fractional)
+    (h : stvStep cfg init q ω rnd S prev = .ok (S', r)) :
+    (S'.hopeful = [] ∧ r.remaining = [] ∧ r.scores = [] ∧ r.elected = prev.remaining) ∨
+    (active S'.bs S'.hopeful + exhausted S'.bs S.hopeful S'.hopeful =
+        active S.bs S.hopeful - (q : Rat) * (r.elected.flatten.length : Rat) ∧
+      r.scores = tallies S'.bs S'.hopeful ∧ (r.elected = [] ∨ r.eliminated = [])) := by
+  unfold stvStep at h
+  simp only at h
+  split at h
+  · cases he : electChoice cfg q ω rnd S prev with
+    | ok gt =>
+      obtain ⟨g, tbs⟩ := gt
+      simp only [he, bind, Outcome.bind] at h
+      cases ha : applyTransfers cfg S.hopeful q (ω.sample rnd) g.flatten S.bs with
+      | ok bs' =>
+        simp only [ha, pure, Outcome.ok.injEq, Prod.mk.injEq] at h
+        obtain ⟨h1, h2⟩ := h
+        subst h1 h2
+        right
+        refine ⟨?_, rfl, Or.inr rfl⟩
+        have h3 := applyTransfers_fractional_active cfg S.hopeful q _ g.flatten S.bs bs' hf ha
+        have h4 := active_shrink bs' S.hopeful (S.hopeful.filter (fun c => !g.flatten.contains c))
+          (fun c hc => (List.mem_filter.1 hc).1)
+        simp only
+        rw [← h4, h3]
+      | raised e => simp [ha] at h
+      | oracleMismatch => simp [ha] at h
+      | outOfFuel => simp [ha] at h
+    | raised e => simp [he, bind, Outcome.bind] at h
+    | oracleMismatch => simp [he, bind, Outcome.bind] at h
+    | outOfFuel => simp [he, bind, Outcome.bind] at h
+  · split at h
+    · simp only [pure, Outcome.ok.injEq, Prod.mk.injEq] at h
+      obtain ⟨h1, h2⟩ := h
+      subst h1 h2
+      exact Or.inl ⟨rfl, rfl, rfl, rfl⟩
+    · split at h
+      · cases h
+      · rename_i lowest hlast
+        cases hlc : loserChoice init ω rnd lowest with
+        | ok ct =>
+          obtain ⟨c, tbs⟩ := ct
+          simp only [hlc, bind, Outcome.bind, pure, Outcome.ok.injEq, Prod.mk.injEq] at h
+          obtain ⟨h1, h2⟩ := h
+          subst h1 h2
+          right
+          refine ⟨?_, rfl, Or.inl rfl⟩
+          have h4 := active_shrink S.bs S.hopeful (S.hopeful.filter (fun x => x != c))
+            (fun x hx => (List.mem_filter.1 hx).1)
+          simp only [List.flatten_nil, List.length_nil]
+          rw [← h4]; push_cast; ring
+        | raised e => simp [hlc, bind, Outcome.bind] at h
+        | oracleMismatch => simp [hlc, bind, Outcome.bind] at h
+        | outOfFuel => simp [hlc, bind, Outcome.bind] at h
+
+/-- **The total never increases** (fractional rule, non-negative threshold, non-negative weights
+after the step): from one round to the next the profile's total weight can only drop. -/
+theorem C03_total_nonincreasing (cfg : STVCfg) (init : Profile) (q : Int) (ω : STVOracle) (rnd : Nat)
+    (S S' : CState) (prev r : RoundState) (hf : cfg.transfer = .fractional) (hq : 0 ≤ q)
+    (hS : ∀ b ∈ S.bs, 0 ≤ b.2) (hS' : ∀ b ∈ S'.bs, 0 ≤ b.2)
+    (h : stvStep cfg init q ω rnd S prev = .ok (S', r)) :
+    active S'.bs S'.hopeful ≤ active S.bs S.hopeful := by
+  rcases C03_step_accounting cfg init q ω rnd S S' prev r hf h with ⟨h1, _⟩ | ⟨h1, _⟩
+  · rw [h1]
+    have h0 : active S'.bs [] = 0 := by
+      unfold active wsum
+      have : S'.bs.filter (isActive []) = [] := by
+        rw [List.filter_eq_nil_iff]; intro b _; simp [isActive, topOf]
+      rw [this]; rfl
+    rw [h0]
+    exact wsum_nonneg _ _ hS
+  · have hex : 0 ≤ exhausted S'.bs S.hopeful S'.hopeful := wsum_nonneg _ _ hS'
+    have hqk : 0 ≤ (q : Rat) * (r.elected.flatten.length : Rat) :=
+      mul_nonneg (by exact_mod_cast hq) (by positivity)
+    linarith
+
+/-- SequentialRCV (full-weight transfer): a surplus transfer changes no ballot weight at all -/
+theorem C03_full_transfer_keeps_weights (cfg : STVCfg) (hopeful : List Cand) (q : Int)
+    (sample : List (List Cand × Nat)) (bs bs' : List PBallot) (w : Cand) (hf : cfg.transfer = .full)
+    (h : applyTransfer cfg hopeful q sample bs w = .ok bs') : bs' = bs :=
+  applyTransfer_full cfg hopeful q sample bs bs' w hf h
+
 
 end VK
